@@ -113,6 +113,27 @@ var scenarios = [][]string{
 		"c adv 1",
 		"c q wire u2 f t -",
 	},
+	{ // DNS64: the synthetic AAAA is composed from the A answer and the AAAA NODATA, of differing ages
+		"c new 0 f",
+		"c q msg m0 f t m0=d:-:s300/300:-:-;n0=p:p250,p250:-:-:-",
+		"c q wire m0 f t -",
+		"c adv 296",
+		"c q msg n0 f t n0=p:p250:-:-:-",
+		"c q msg m0 f t -",
+		"c q wire m0 f f -",
+		"c adv 3",
+		"c q dwire m0 f t -",
+		"c adv 1",
+		"c q msg m0 f t -",
+		"c q msg m1 f t m1=d:-:s20/3600:-:-;n1=p:p3600:-:-:-",
+		"c q msg m2 f t m2=c3:p100:-:-:-;m3=d:-:s50/20:-:-;n2=c3:p40:-:-:-;n3=p:p30:-:-:-",
+		"c adv 10",
+		"c q wire m2 f t -",
+		"c q msg m4 f t m4=p:p60:-:-:-",
+		"c q msg m4 f f -",
+		"c q msg m5 f t m5=d:-:s300/300:-:-;n5=d:-:s60/60:-:-",
+		"c q msg m5 f t -",
+	},
 	{ // RFC 8198 synthesis: a later admission replaces the zone's SOA entry with a shorter-lived one
 		"c new 0 f",
 		"c prec 1 s300/300,g300/300/4000000,p300,g300/300/4000000 -",
@@ -258,6 +279,10 @@ func genTTLCase(r *vlib.R, emit func(string)) int {
 			}
 			emit(fmt.Sprintf("ttl hard %d %s", ttl, cut))
 		case k < 13:
+			if r.Bool() {
+				emit("ttl neg64 " + joinOrDash(genCalcSection(r, 3, true, false)))
+				break
+			}
 			emit("ttl bound " + genFolds(r, 5))
 		case k < 14:
 			emit(fmt.Sprintf("ttl fork %s %s %s", genFolds(r, 3), genFolds(r, 3), vlib.B(r.Chance(2, 3))))
@@ -609,6 +634,34 @@ func genHistCase(r *vlib.R, emit func(string)) int {
 			count += 2
 		}
 	}
+	if r.Chance(1, 5) {
+		// DNS64: the A answer and the AAAA NODATA of one name admitted at
+		// different instants, then the AAAA question around every boundary
+		k := r.Intn(nNames)
+		first, second := fmt.Sprintf("n%d", k), fmt.Sprintf("m%d", k)
+		kinds := map[string]byte{first: 'p', second: 'd'}
+		if r.Bool() {
+			first, second = second, first
+		}
+		for _, nm := range []string{first, second} {
+			emit(fmt.Sprintf("c q %s %s f %s %s", g.route(), nm, vlib.B(r.Bool()), g.genSpec(nm, kinds[nm], 0, false)))
+			g.admitted[nm] = true
+			count++
+			if hist != nil && hist.taint {
+				return count
+			}
+			emit(fmt.Sprintf("c adv %d", g.pickAdvance()))
+			count++
+		}
+		for q := 0; q < 3; q++ {
+			if hist != nil && hist.taint {
+				return count
+			}
+			emit(fmt.Sprintf("c q %s m%d f %s -", g.route(), k, vlib.B(r.Bool())))
+			emit(fmt.Sprintf("c adv %d", g.pickAdvance()))
+			count += 2
+		}
+	}
 	jcap := 40
 	if g.aligned {
 		jcap = 13
@@ -624,6 +677,12 @@ func genHistCase(r *vlib.R, emit func(string)) int {
 			name := fmt.Sprintf("n%d", idx)
 			ecs := r.Chance(1, 4)
 			kind, tgt := g.pickKind(idx)
+			if r.Chance(1, 4) {
+				// the AAAA side of the name (what dns64 composes with the A side)
+				g.genAAAASide(idx, emit)
+				count++
+				continue
+			}
 			specs := []string{g.genSpec(name, kind, tgt, ecs)}
 			g.tgtOf[name] = ""
 			// script the rest of the alias chain too (sometimes), so that a
@@ -650,7 +709,20 @@ func genHistCase(r *vlib.R, emit func(string)) int {
 				name = fmt.Sprintf("n%d", r.Intn(nNames))
 			}
 			if len(g.proofs) > 0 && r.Chance(1, 5) {
+				if r.Chance(1, 4) {
+					emit(fmt.Sprintf("c get p%d", vlib.Pick(r, g.proofs)))
+					continue
+				}
 				emit(fmt.Sprintf("c q %s p%d %s %s -", g.route(), vlib.Pick(r, g.proofs), vlib.B(r.Chance(1, 8)), vlib.B(r.Chance(2, 3))))
+				continue
+			}
+			if r.Chance(1, 8) {
+				// the resolver-private route
+				if len(g.cuts) > 0 && r.Chance(1, 4) {
+					emit(fmt.Sprintf("c get u%d", vlib.Pick(r, g.cuts)))
+				} else {
+					emit("c get " + name)
+				}
 				continue
 			}
 			up := "-"
@@ -659,8 +731,8 @@ func genHistCase(r *vlib.R, emit func(string)) int {
 				if idx < nNames-1 {
 					t := idx + 1 + r.Intn(nNames-1-idx)
 					kind, t2 := g.pickKind(t)
-					up = g.genSpec(fmt.Sprintf("n%d", t), kind, t2, false)
-					g.admitted[fmt.Sprintf("n%d", t)] = true
+					up = g.genSpec(fmt.Sprintf("%s%d", name[:1], t), kind, t2, false)
+					g.admitted[fmt.Sprintf("%s%d", name[:1], t)] = true
 				}
 			}
 			emit(fmt.Sprintf("c q %s %s %s %s %s", g.route(), name, vlib.B(r.Chance(1, 5)), vlib.B(r.Bool()), up))
@@ -706,6 +778,49 @@ func genHistCase(r *vlib.R, emit func(string)) int {
 		}
 	}
 	return count
+}
+
+// genAAAASide: an AAAA question for n<idx>; the upstream is scripted for the
+// AAAA side (mostly NODATA) and often for the A side too.
+func (g *genHist) genAAAASide(idx int, emit func(string)) {
+	r := g.r
+	name := fmt.Sprintf("m%d", idx)
+	var kind byte
+	tgt := 0
+	switch k := r.Intn(20); {
+	case k < 10:
+		kind = 'd'
+	case k < 13:
+		kind = 'p'
+	case k < 16 && idx < nNames-1:
+		kind, tgt = 'c', idx+1+r.Intn(nNames-1-idx)
+	case k < 18:
+		kind = 'x'
+	default:
+		kind = 'e'
+	}
+	specs := []string{g.genSpec(name, kind, tgt, false)}
+	g.admitted[name] = true
+	if kind == 'c' && r.Chance(2, 3) {
+		tn := fmt.Sprintf("m%d", tgt)
+		specs = append(specs, g.genSpec(tn, vlib.Pick(r, []byte{'d', 'd', 'e', 'p'}), 0, false))
+		g.admitted[tn] = true
+	}
+	if r.Chance(3, 5) {
+		ak, at := g.pickKind(idx)
+		if at >= 100 {
+			ak, at = 'p', 0
+		}
+		an := fmt.Sprintf("n%d", idx)
+		specs = append(specs, g.genSpec(an, ak, at, false))
+		g.admitted[an] = true
+		if ak == 'c' && r.Chance(1, 2) {
+			tn := fmt.Sprintf("n%d", at)
+			specs = append(specs, g.genSpec(tn, 'p', 0, false))
+			g.admitted[tn] = true
+		}
+	}
+	emit(fmt.Sprintf("c q %s %s %s %s %s", g.route(), name, vlib.B(r.Chance(1, 8)), vlib.B(r.Bool()), strings.Join(specs, ";")))
 }
 
 // genProof: an RFC 8198 NODATA proof for owner k of the proof zone.  The SOA
